@@ -25,7 +25,7 @@ class AlphaVectorPolicy(ValueBasedTabularPOMDPPolicy):
         elif isinstance(belief, Belief):
             ss, b = belief
             assert len(ss) == len(b)
-        elif isinstance(belief, (list, tuple, np.array)):
+        elif isinstance(belief, (list, tuple, np.ndarray)):
             b = belief
         return b
 
